@@ -239,6 +239,9 @@ func (fr *frame) runDefer(d *deferred) {
 			if _, isEnd := r.(pathEnd); isEnd {
 				panic(r)
 			}
+			if _, isAbort := r.(abortPanic); isAbort {
+				panic(r)
+			}
 			if _, isTP := r.(targetPanic); !isTP {
 				panic(engineFault(fr, r))
 			}
@@ -679,7 +682,7 @@ func runFrame(fr *frame) {
 		}
 		r := recover()
 		switch r.(type) {
-		case pathEnd:
+		case pathEnd, abortPanic:
 			panic(r)
 		case targetPanic:
 		case goexitPanic:
